@@ -305,6 +305,17 @@ TEXTUAL = [
     ("C07", "parafac-linesearch-accepts-unconditionally", "tensorly/decomposition/_cp.py", "            if (new_rec_error / new_norm_tensor) < rec_errors[-1]:", "            if True:"),
     ("C07", "parafac-linesearch-comparison-reversed", "tensorly/decomposition/_cp.py", "            if (new_rec_error / new_norm_tensor) < rec_errors[-1]:", "            if (new_rec_error / new_norm_tensor) > rec_errors[-1]:"),
     ("C07", "parafac2-linesearch-comparison-reversed", "tensorly/decomposition/_parafac2.py", "        if ls_rec_error < rec_error:", "        if ls_rec_error > rec_error:"),
+    ("C13", "hals-diagonal-term-without-gram-entry", "tensorly/solvers/nnls.py", "num = UtM[k, :] - tl.dot(UtU[k, :], V) + UtU[k, k] * V[k, :]", "num = UtM[k, :] - tl.dot(UtU[k, :], V) + V[k, :]"),
+    ("C13", "hals-denominator-squared", "tensorly/solvers/nnls.py", "                den = UtU[k, k]\n", "                den = UtU[k, k] ** 2\n"),
+    ("C13", "hals-ridge-in-numerator", "tensorly/solvers/nnls.py", "                if sparsity_coefficient is not None:\n                    num -= sparsity_coefficient\n                if ridge_coefficient is not None:\n                    den += 2 * ridge_coefficient", "                if sparsity_coefficient is not None:\n                    den += sparsity_coefficient\n                if ridge_coefficient is not None:\n                    num -= 2 * ridge_coefficient"),
+    ("C13", "hals-init-scale-wrong-unit", "tensorly/solvers/nnls.py", "        scale = tl.sum(UtM * V) / tl.sum(UtU * tl.dot(V, tl.transpose(V)))", "        scale = tl.sum(UtM * V) / tl.sum(UtU * V)"),
+    ("C13", "fista-step-without-learning-rate", "tensorly/solvers/nnls.py", "        x_new = x_update - lr * x_gradient", "        x_new = x_update - x_gradient"),
+    ("C13", "fista-learning-rate-not-inverted", "tensorly/solvers/nnls.py", "        lr = 1 / (tl.truncated_svd(UtU)[1][0] + 2 * ridge_coef)", "        lr = tl.truncated_svd(UtU)[1][0] + 2 * ridge_coef"),
+    ("C13", "fista-gradient-without-gram", "tensorly/solvers/nnls.py", "                -UtM + tl.dot(UtU, x_update) + sparsity_coef + 2 * ridge_coef * x_update\n", "                -UtM + x_update + sparsity_coef + 2 * ridge_coef * x_update\n"),
+    ("C13", "active-set-gradient-without-gram", "tensorly/solvers/nnls.py", "    x_gradient = Utm - tl.dot(UtU, x_vec)\n    passive_set = x_vec > 0", "    x_gradient = Utm - x_vec\n    passive_set = x_vec > 0"),
+    ("C13", "active-set-solves-transposed-roles", "tensorly/solvers/nnls.py", "            passive_solution = tl.solve(\n                UtU[passive_set, :][:, passive_set], Utm[passive_set]\n            )\n            indice_list = []\n            for i in range(tl.shape(support_vec)[0]):\n                if passive_set[i]:\n                    indice_list.append(i)\n                    support_vec = tl.index_update(\n                        support_vec,\n                        tl.index[int(i)],\n                        passive_solution[len(indice_list) - 1],\n                    )\n                else:\n                    support_vec = tl.index_update(support_vec, tl.index[int(i)], 0)\n        # Start from zeros", "            passive_solution = tl.dot(\n                UtU[passive_set, :][:, passive_set], Utm[passive_set]\n            )\n            indice_list = []\n            for i in range(tl.shape(support_vec)[0]):\n                if passive_set[i]:\n                    indice_list.append(i)\n                    support_vec = tl.index_update(\n                        support_vec,\n                        tl.index[int(i)],\n                        passive_solution[len(indice_list) - 1],\n                    )\n                else:\n                    support_vec = tl.index_update(support_vec, tl.index[int(i)], 0)\n        # Start from zeros"),
+    ("C13", "admm-split-without-rho", "tensorly/solvers/admm.py", "            tl.transpose(UtM + rho * (x + dual_var)),", "            tl.transpose(UtM + (x + dual_var)),"),
+    ("C13", "admm-unconstrained-returns-rhs", "tensorly/solvers/admm.py", "            x = tl.transpose(tl.solve(tl.transpose(UtU), tl.transpose(UtM)))\n            return x, x_split, dual_var", "            x = tl.transpose(tl.transpose(UtM))\n            return x, x_split, dual_var"),
     ("C03", "cp-ctor-skips-validation", "tensorly/cp_tensor.py", "        shape, rank = _validate_cp_tensor(cp_tensor)\n        weights, factors = cp_tensor\n", "        weights, factors = cp_tensor\n        shape, rank = tuple(f.shape[0] for f in factors), factors[0].shape[1]\n"),
     ("C03", "tt-vec-of-other-family", "tensorly/tt_tensor.py", "    return tl.tensor_to_vec(tt_to_tensor(factors))", "    return tl.tensor_to_vec(tt_to_tensor(factors[::-1]))"),
     ("C03", "tucker-unfolded-wrong-mode", "tensorly/tucker_tensor.py", "        mode,\n    )", "        mode + 1,\n    )"),
@@ -404,6 +415,8 @@ TEXTUAL_TWINS = [
     ("C07", "parafac-gram-weights-commuted", "tensorly/decomposition/_cp.py", "                tl.reshape(weights, (-1, 1))\n                * pseudo_inverse\n                * tl.reshape(weights, (1, -1))\n            )\n            mttkrp = unfolding_dot_khatri_rao(tensor, (weights, factors), mode)\n\n            factor = tl.transpose(", "                pseudo_inverse\n                * tl.reshape(weights, (-1, 1))\n                * tl.reshape(weights, (1, -1))\n            )\n            mttkrp = unfolding_dot_khatri_rao(tensor, (weights, factors), mode)\n\n            factor = tl.transpose("),
     ("C07", "parafac-linesearch-guard-flipped-operands", "tensorly/decomposition/_cp.py", "            if (new_rec_error / new_norm_tensor) < rec_errors[-1]:", "            if rec_errors[-1] > (new_rec_error / new_norm_tensor):"),
     ("C07", "tr-als-normal-eq-named-transpose", "tensorly/decomposition/_tr_als.py", "                rhs_mat = tl.matmul(design_mat_tr, tensor_unf)", "                rhs_mat = tl.dot(design_mat_tr, tensor_unf)"),
+    ("C13", "hals-update-as-increment", "tensorly/solvers/nnls.py", "                newV = tl.clip(num / den, a_min=epsilon)", "                step = (num - den * V[k, :]) / den\n                newV = tl.clip(V[k, :] + step, a_min=epsilon)"),
+    ("C13", "fista-gradient-reordered", "tensorly/solvers/nnls.py", "                -UtM + tl.dot(UtU, x_update) + sparsity_coef + 2 * ridge_coef * x_update\n", "                tl.dot(UtU, x_update) - UtM + 2 * ridge_coef * x_update + sparsity_coef\n"),
     ("C01", "partial-fold-del-by-position", "tensorly/base.py", "    mode_dim = transposed_shape.pop(skip_begin + mode)", "    mode_dim = transposed_shape.pop(skip_begin + mode)\n    _n_axes = len(transposed_shape)"),
 ]
 
